@@ -17,6 +17,7 @@ func init() {
 		"(2) REFRESH: the refresh is requested only on the success edge of the refreshing-flag CAS; backgroundRefresh clears the flag by a deferred clean-up whose callees cannot delete from the cache (effect summary over the call graph) — a clean-up that evicts defeats the stale window; " +
 		"(3) BOUNDARY: every freshness comparison uses the same boundary (fresh iff deadline > now); both deadline clocks are written together by every function that installs a pre-packed answer; reload clones copy each atomic field from the source entry, never from the clone itself; " +
 		"(4) STALE: the stale answer is consulted only under the optimistic-cache switch and the not-served path evicts; (5) EVICT: direct deletions from the cache map are confined to the reviewed eviction functions; (6) HEAP: the LRU heap's two child guards use the same bound. " +
+		"(7) LRU: every lookup that serves cached bytes has recorded the use (unconditional last-access stamp); the TTL packed into a stored answer is computed from the deadline the entry lives until. " +
 		"Not decided: TTL arithmetic and the 15 s slack, LRU order over histories, time-relative behaviour."})
 }
 
@@ -145,6 +146,7 @@ func runC08(c *Ctx) {
 	c08Stale(c)
 	c08Evict(c, deleters)
 	c08Heap(c)
+	c08Round2(c)
 }
 
 func isParamAnyFunc(f *core.Func, v *types.Var) bool {
